@@ -200,6 +200,44 @@ def write_evidence(prop, tier, seed, level, coverage, wall, violations, assumpti
         json.dump(ev, f, indent=1, default=str)
 
 
+def replay_phase(prop: str):
+    """1. open known findings: witnesses must still fail with their signature;
+    2. fixed findings and committed regression cases must pass."""
+    known = load_known()
+    violations, known_lines, notes = [], [], []
+    replayed = 0
+    for k in known:
+        if k["property"] != prop:
+            continue
+        wit = k.get("witness")
+        if not wit:
+            continue
+        sig, detail = replay_file(prop, wit)
+        replayed += 1
+        if k.get("status") == "open":
+            if sig is not None and fnmatch.fnmatchcase(sig, k["signature"]):
+                known_lines.append(f"KNOWN-FINDING: property={prop} {k['what']}")
+            elif sig is not None:
+                violations.append((sig, wit))
+            else:
+                notes.append(f"note: known finding no longer reproduces: {k['what']}")
+        else:  # fixed: an ordinary regression case, suppresses nothing
+            if sig is not None:
+                violations.append((sig, wit))
+    rdir = os.path.join(VERIF, "replay", prop)
+    known_wits = {k.get("witness") for k in known if k["property"] == prop}
+    if os.path.isdir(rdir):
+        for fn in sorted(os.listdir(rdir)):
+            rel = os.path.join("replay", prop, fn)
+            if rel in known_wits or not fn.endswith(".json"):
+                continue
+            sig, detail = replay_file(prop, rel)
+            replayed += 1
+            if sig is not None and match_known(known, prop, sig) is None:
+                violations.append((sig, rel))
+    return violations, known_lines, replayed, notes
+
+
 def main(prop: str, tier: str, seed: int, replay: str | None = None) -> int:
     t0 = time.time()
     sys.path.insert(0, VERIF)
@@ -219,51 +257,21 @@ def main(prop: str, tier: str, seed: int, replay: str | None = None) -> int:
         print(f"VIOLATION property={prop} replay={replay}")
         return 1
 
-    violations = []  # (signature, replay path)
-    known_lines = []
-    replayed = 0
-    # 1. open known findings: witnesses must still fail with their signature
-    for k in known:
-        if k["property"] != prop:
-            continue
-        wit = k.get("witness")
-        if not wit:
-            continue
-        sig, detail = replay_file(prop, wit)
-        replayed += 1
-        if k.get("status") == "open":
-            if sig is not None and fnmatch.fnmatchcase(sig, k["signature"]):
-                known_lines.append(f"KNOWN-FINDING: property={prop} {k['what']}")
-            elif sig is not None:
-                violations.append((sig, wit))
-            else:
-                print(f"note: known finding no longer reproduces: {k['what']}")
-        else:  # fixed: an ordinary regression case, suppresses nothing
-            if sig is not None:
-                violations.append((sig, wit))
-    # 2. committed regression replays
-    rdir = os.path.join(VERIF, "replay", prop)
-    known_wits = {k.get("witness") for k in known}
-    if os.path.isdir(rdir):
-        for fn in sorted(os.listdir(rdir)):
-            rel = os.path.join("replay", prop, fn)
-            if rel in known_wits or not fn.endswith(".json"):
-                continue
-            sig, detail = replay_file(prop, rel)
-            replayed += 1
-            if sig is not None and match_known(known, prop, sig) is None:
-                violations.append((sig, rel))
-    for ln in known_lines:
-        print(ln)
-
-    # 3. generated search, sharded
+    # everything that touches generated code runs in forked workers of one pool created while
+    # this process is still clean (no jax / threads), replays included
     total = mod.BUDGET[tier]
     nshards = min(NSHARDS, max(1, total))
     per = max(1, total // nshards)
     jobs = [(prop, tier, seed, i, per) for i in range(nshards)]
     ctx = mp.get_context("fork")
     with ctx.Pool(nshards) as pool:
+        rep = pool.apply_async(replay_phase, (prop,))
         results = pool.map(run_shard, jobs, chunksize=1)
+        violations, known_lines, replayed, notes = rep.get()
+    for ln in known_lines:
+        print(ln)
+    for ln in notes:
+        print(ln)
 
     evaluations = sum(r["evaluations"] for r in results)
     nontrivial = set()
@@ -334,6 +342,9 @@ def main(prop: str, tier: str, seed: int, replay: str | None = None) -> int:
     if harness:
         for h in harness[:3]:
             print("HARNESS ERROR:\n" + h["traceback"], file=sys.stderr)
+        return 2
+    if sum(inconclusive.values()) > 0.15 * max(1, evaluations):
+        print("HARNESS ERROR: more than 15% of the cases were inconclusive: " + str(dict(inconclusive)), file=sys.stderr)
         return 2
     if len(nontrivial) < 2:
         print("HARNESS ERROR: fewer than 2 non-trivial cases generated", file=sys.stderr)
